@@ -8,7 +8,7 @@ Open Scope Z_scope.
 (* ---------- vocabulary of the statements ---------- *)
 (* events that can only occur when an iteration has been started *)
 Definition starts_iter (e : event) : bool :=
-  match e with Exec | ExecEnd _ | IterEnd => true | _ => false end.
+  match e with Exec | ExecEnd _ | IterEnd | IterStart => true | _ => false end.
 
 (* [pre] (the events after SearchStart) ends at an iteration boundary, i.e. at the loop head *)
 Definition at_head (hf : bool) (pre : list event) : Prop :=
@@ -187,6 +187,57 @@ Proof.
   unfold iter_inv in Hi. rewrite E1 in Hi. cbn [n_iter]. lia.
 Qed.
 
+(* every pass through the loop body counts: the body is entered at most budget times *)
+Definition d_start (e : event) : Z := match e with IterStart => 1 | _ => 0 end.
+Lemma n_start_cons e r : n_start (e :: r) = d_start e + n_start r.
+Proof. destruct e; reflexivity. Qed.
+
+Definition in_iter (st : state) : Z := match ph st with PIter => 1 | _ => 0 end.
+Definition icnt (st : state) : Z := match c_iter (cs st) with Some c => cnt c | None => 0 end.
+
+Lemma step_start_inv hf st e st' :
+  step hf st e = Some st' -> ph st <> PInit -> c_iter (cs st) <> None ->
+  c_iter (cs st') <> None /\ icnt st' + in_iter st' >= icnt st + in_iter st + d_start e.
+Proof.
+  intros Hs Hp Hc. destruct st as [p [ci ct cm]]. unfold icnt, in_iter in *. cbn [ph cs c_iter] in *.
+  unfold step in Hs. cbn [ph cs] in Hs. destruct ci as [c|]; [|congruence].
+  destruct p; [congruence| | | |]; destruct e; try discriminate;
+    try (destruct (resources_left _); [|discriminate]);
+    inversion Hs; subst; clear Hs;
+    cbn [ph cs c_iter on_exec on_exec_end on_iter_end omap cond_incr set_cnt cnt d_start];
+    (split; [discriminate|lia]).
+Qed.
+
+Lemma run_start_inv hf : forall tr st st',
+  run hf st tr = Some st' -> ph st <> PInit -> c_iter (cs st) <> None ->
+  icnt st' + in_iter st' >= icnt st + in_iter st + n_start tr.
+Proof.
+  induction tr as [|e r IH]; intros st st' Hr Hp Hc; cbn [run] in Hr.
+  - inversion Hr; subst. cbn [n_start]. lia.
+  - destruct (step hf st e) as [st1|] eqn:Es; [|discriminate].
+    destruct (step_effect _ _ _ _ Es Hp) as [Hp1 _].
+    destruct (step_start_inv _ _ _ _ Es Hp Hc) as [Hc1 H1].
+    pose proof (IH _ _ Hr Hp1 Hc1) as H2. rewrite n_start_cons. lia.
+Qed.
+
+Lemma starts_le_budget hf s tr c :
+  accepts hf s tr = true -> c_iter s = Some c -> 0 < lim c -> n_start tr <= lim c.
+Proof.
+  unfold accepts. intros Ha Ec Hl. destruct (run hf (init s) tr) as [st|] eqn:Hr; [|discriminate].
+  destruct tr as [|e0 r0] eqn:Et; [cbn; lia|]. rewrite <- Et in *.
+  destruct (run_start hf s tr st Hr ltac:(rewrite Et; discriminate)) as [r [-> Hr']].
+  assert (Hi0 : iter_inv (started hf s)).
+  { unfold iter_inv, started. cbn. rewrite Ec. cbn. split; [lia|]. destruct hf; discriminate. }
+  pose proof (run_iter_inv hf _ _ _ Hr' (started_not_init hf s) Hi0) as Hi.
+  assert (Hc0 : c_iter (cs (started hf s)) <> None) by (cbn; rewrite Ec; discriminate).
+  pose proof (run_start_inv hf _ _ _ Hr' (started_not_init hf s) Hc0) as Hs.
+  destruct (counters_exact hf s r st Hr) as [C1 _]. destruct (C1 c Ec) as [c' [E1 [E2 E3]]].
+  unfold iter_inv in Hi. rewrite E1 in Hi. unfold icnt, in_iter in Hs. rewrite E1 in Hs.
+  cbn [started cs ph on_search_start c_iter] in Hs. rewrite Ec in Hs. cbn [omap cond_reset set_cnt cnt] in Hs.
+  cbn [n_start]. destruct Hi as [H1 H2].
+  destruct (ph st) eqn:Eph; destruct hf; cbn in Hs; try lia; specialize (H2 eq_refl); lia.
+Qed.
+
 (* ---------- no iteration starts once a budget is reached ---------- *)
 Lemma step_last_head hf st e st' :
   step hf st e = Some st' -> (e = IterEnd \/ e = FirstIter) -> ph st' = PHead.
@@ -291,6 +342,11 @@ Proof. reflexivity. Qed.
 
 Example ex_run_rejected_exec :
   accepts true ex_conds [SearchStart; Exec; Exec; Exec; Exec; Exec; FirstIter; Exec; IterEnd; SearchEnd] = false.
+Proof. reflexivity. Qed.
+
+(* a second pass through the loop body without after_search_iteration is rejected *)
+Example ex_run_rejected_uncounted :
+  accepts false ex_conds [SearchStart; IterStart; Exec; ExecEnd 1; IterEnd; IterStart; Exec; ExecEnd 1; IterStart] = false.
 Proof. reflexivity. Qed.
 
 Example ex_at_head : at_head true [Exec; ExecEnd 3; FirstIter; Exec; IterEnd].
